@@ -7,6 +7,47 @@ HERE = os.path.dirname(os.path.dirname(os.path.abspath(__file__)))
 TECH = "deterministic simulation with fault injection: seeded search over schedules/fault sequences of the real code (AST-instrumented copy) inside a testing/synctest bubble under a gate scheduler; history oracles / reference models; tape shrinking and exact replay"
 
 CLAIMED = {
+    "C06": dict(
+        text="Seeded histories (1..40 operations, swarm-style operation subsets) on one LinkedListQueue through the concrete type, Queue[T] and Stack[T], stepped in lock-step against a reference deque, with the sync.Pool node allocator simulated (drop / reuse newest / reuse oldest / fresh decided by the tape); livelock detection by a yield cap. Weakest fit: apart from the allocator the property is a function of the history.",
+        note="Sampling of histories, not bounded-exhaustive enumeration (which would be the stronger technique for the history part, DESIGN.md §5.6); the allocator seam is the only schedule-like nondeterminism; trusted: reference deque in harness/c06_deque.go, instrumenter's sync.Pool redirection.",
+        ref="DESIGN.md §5.6"),
+    "C10": dict(
+        text="Seeded schedule/history search over Publish/Subscribe/Unsubscribe from 1..3 threads and from inside callbacks (self/other unsubscription, re-entrant subscription), with and without SubscribeOn(handler) and Map; per (Publish, subscription) delivery-count oracle from invoke/return stamps, subscription order, handler thread identity.",
+        note="Only definite violations: deliveries to subscriptions whose (un)subscription overlaps the Publish are unconstrained (0 or 1, never 2); handler mode is judged after the handler has been drained under fair scheduling; trusted: harness/c10_publisher.go.",
+        ref="DESIGN.md §5.10"),
+    "C11": dict(
+        text="Generated composition trees over Just/New/FlatMap checked against a reference interpreter (value, effect order) when only built, Eval'ed 0..3 times and Subscribed from 1..3 threads under every nil/non-nil ObserveOn/SubscribeOn combination (thread identity of effects and OnNext, exactly-once), plus behavioural monad-law instances.",
+        note="Laziness and the laws do not depend on the schedule; the schedule-dependent clauses (routing, exactly-once under concurrent subscribers and busy handlers) are sampled; trusted: reference interpreter in harness/c11_monadio.go.",
+        ref="DESIGN.md §5.11"),
+    "C12": dict(
+        text="Seeded schedule search over 1..16 senders posting numbered sequences to a Handler or to the actors of a spawn tree (all channel capacities), with begin/yield/end logging; oracles: exactly-once by the fair settle horizon, no overlap per mailbox, per-sender order, effect receives its own actor, parent/child registry, nothing runs after Close.",
+        note="Actor ids are time.Now(): the harness advances the fake clock by 1ns before each actor creation; trusted: harness/c12_mailbox.go.",
+        ref="DESIGN.md §5.12"),
+    "C13": dict(
+        text="Seeded schedule/timing search over 1..6 askers x one serial actor with per-request reply policies (now / inline or asynchronous virtual latency / never) around the timeout on the fake clock; oracles decided from recorded virtual instants: correlation, in-time => reply, timeout => zero value + ErrActorAskTimeout after >= timeout, never => timeout, late => timeout (stall-free runs), late Reply neither panics nor blocks, actor still serves.",
+        note="The in-time rule uses the instant Reply returned (sound under injected stalls); the converse rule only in stall-free runs; equal instants accept both outcomes; trusted: synctest fake clock, harness/c13_ask.go.",
+        ref="DESIGN.md §5.13"),
+    "C14": dict(
+        text="Seeded schedule search over 1..8 caller coroutines (started coroutines and DoNotation effects, optional YieldFromIO) and a generator target with exactly as many YieldRefs as requests; pairing/routing oracle over the logs of both sides, StartWithVal, DoNotation/YieldFromIO results, IsStarted/IsDone, nobody blocked at fair quiescence.",
+        note="Side condition of the property (the target has YieldRefs left for every request) is built into the scenario; trusted: harness/c14_cor.go.",
+        ref="DESIGN.md §5.14"),
+    "C16": dict(
+        text="Seeded schedule search over PMap's producer/worker/closer goroutines with lists of length 0..16, every FixedPool class, both order modes and data-dependent virtual durations of f (including later-elements-finish-first); oracles: result == Map / permutation, f applied exactly once per element, gauge <= min(FixedPool,len), returns after the last application, terminates.",
+        note="Trusted: harness/c16_pmap.go; termination is a bounded-liveness verdict under fair scheduling.",
+        ref="DESIGN.md §5.16"),
+    "C17": dict(
+        text="Seeded definitions (constructor x template x PathParam x body x DefaultHeader) x injected fault (serializer, transport, torn/empty/malformed body, nil deserializer result, missing file) x 0..6 evaluations via Eval or Subscribe, over the real net/http client with a stub RoundTripper; reference request builder for method/URL/header/body; lazy, one request per evaluation, header copy, decoding, failure => Err never panic.",
+        note="Sequential property: the simulation contributes the transport/body/serializer seams, fault injection, replay and shrinking; Go map iteration order (multipart part order, pre-fix path-parameter substitution) cannot be seeded, so multipart bodies are compared as parsed fields and replays of map-order-dependent failures are retried; trusted: harness/c17_api.go.",
+        ref="DESIGN.md §5.17"),
+    "C18": dict(
+        category="fault_enumeration",
+        text="Seeded histories over Add/Remove/ClearInterceptor, SetHTTPClient and requests of every verb (and via SimpleAPI) with 0..6 interceptor objects and 1..3 clients; at every request point every position of a failing interceptor is enumerated; list-model oracle: chain = model list in order, each once, then transport once; header changes reach the transport; error aborts and surfaces; no re-entrancy.",
+        note="Histories are sampled, failing positions are enumerated exhaustively per request point; sharing one http.Client between two SimpleHTTP objects is not exercised; trusted: harness/c18_interceptors.go.",
+        ref="DESIGN.md §5.18"),
+    "C20": dict(
+        text="CurryDef clause only: seeded schedule search over 1..6 threads calling Call with unique argument blocks and MarkDone from inside fn or from another thread; prefix-chain oracle over the recorded invocations (whole blocks, real-time order, at most/exactly one invocation per Call, nothing after MarkDone, Result).",
+        note="Compose/Pipe, CurryParamN/MakeVariadic*, Trampoline, MatchFor/Either and NewCompData are pure functions and are NOT decided by this check: a change that only breaks those clauses is invisible to it (honest partial claim, DESIGN.md §5.20); trusted: harness/c20_curry.go.",
+        ref="DESIGN.md §5.20"),
     "C07": dict(
         text="Seeded schedule/fault search over producers x consumers x loader/free-node goroutines of the real Buffered/ChannelQueue on a fake clock, configurations drawn per run, fair settle phase; history oracles for invented/duplicate/lost, real-time FIFO, bound, non-blocking, error necessity, timeout honesty, conservation and nothing-stranded. Evidence bounded by explored schedules.",
         note="Oracles flag only definite violations from invoke/return stamps; the nothing-stranded clause is evaluated for capacity>=1 under fair scheduling up to a bounded number of retrieval attempts; statement-granular SC interleavings; trusted: synctest fake clock, instrumenter, harness/c07_queues.go.",
